@@ -765,6 +765,50 @@ INT_FUNCS = ["mpt_data_convert_int8", "mpt_data_convert_uint8", "mpt_data_conver
 FLT_FUNCS = ["mpt_data_convert_float32", "mpt_data_convert_float64", "mpt_data_convert_exflt"]
 
 
+def parse_value_argv(repo, env):
+    """types/value_argv.c: per case of the switch: `if ((len = sizeof(T)) > max) return ..; if (dest) *((S *) dest) = va_arg(va, A);
+    return len;` -> [(code, S, A, sizeof T)]; cases whose stored type is not arithmetic (strings) are skipped"""
+    fn = function_def(repo, "mptcore/types/value_argv.c", "mpt_value_argv")
+    (body,) = [c for c in kids(fn) if c.get("kind") == "CompoundStmt"]
+    sw = [c for c in kids(body) if c.get("kind") == "SwitchStmt"]
+    if len(sw) != 1 or not is_ref(kids(sw[0])[0], "fmt"):
+        fail("mpt_value_argv: expected one switch (fmt)", body)
+    items = flatten_switch(kids(sw[0])[1])
+    rows = []
+    j = 0
+    while j < len(items):
+        it = items[j]
+        if it[0] == "default":
+            j += 2
+            continue
+        if it[0] != "case":
+            fail("mpt_value_argv: statement outside a case", it[1])
+        code, _ = const_eval(it[1], env)
+        stmts = []
+        j += 1
+        while j < len(items) and items[j][0] == "stmt":
+            stmts.append(items[j][1])
+            j += 1
+            if stmts[-1].get("kind") == "ReturnStmt":
+                break
+        if len(stmts) != 3 or stmts[0].get("kind") != "IfStmt" or stmts[1].get("kind") != "IfStmt" or stmts[2].get("kind") != "ReturnStmt":
+            fail("mpt_value_argv: case %d is not `size test; if (dest) store; return len;`" % code, it[1])
+        sizes = [n for n in walk(stmts[0]) if n.get("kind") == "UnaryExprOrTypeTraitExpr" and n.get("name") == "sizeof"]
+        if len(sizes) != 1 or not is_ref(kids(stmts[1])[0], "dest") or not refs_var(kids(stmts[2])[0], "len"):
+            fail("mpt_value_argv: case %d: unexpected shape" % code, stmts[0])
+        asg = single_stmt(kids(stmts[1])[1])
+        vas = [n for n in walk(asg) if n.get("kind") == "VAArgExpr"]
+        if asg.get("kind") != "BinaryOperator" or asg.get("opcode") != "=" or len(vas) != 1:
+            fail("mpt_value_argv: case %d: store is not `*((S *) dest) = va_arg(va, A)`" % code, asg)
+        lhs = strip_parens(kids(asg)[0])
+        try:
+            st, at = cty(lhs["type"], lhs), cty(vas[0]["type"], vas[0])
+        except TranslateError:
+            continue          # pointer valued ('s')
+        rows.append((code, st, at, sizeof(sizes[0]["argType"], sizes[0])))
+    return rows
+
+
 def extract_convint(repo):
     env = enum_constants(repo, "mptcore/convert/data_convert_int.c")
     for need in ("MPT__TypeVectorBase", "MPT__TypeVectorMax", "MPT__TypeScalarBase", "MPT__TypeScalarMax"):
@@ -779,7 +823,7 @@ def extract_convint(repo):
     for code, fname in disp:
         if fname not in names:
             fail("dispatch target %s of type %d is not a translated converter" % (fname, code))
-    return {"functions": fns, "dispatch": disp, "type_int": type_int, "type_uint": type_uint}
+    return {"functions": fns, "dispatch": disp, "type_int": type_int, "type_uint": type_uint, "argv": parse_value_argv(repo, env)}
 
 
 # --------------------------------------------------------------------------------------- text parsers (C07)
@@ -1789,6 +1833,9 @@ def emit_convint(data):
     L.append("/-- `mpt_type_int` / `mpt_type_uint`: byte size -> type code -/")
     L.append("def typeInt : List (Nat × Nat) := [%s]" % ", ".join("(%d, %d)" % kv for kv in sorted(data["type_int"].items())))
     L.append("def typeUint : List (Nat × Nat) := [%s]" % ", ".join("(%d, %d)" % kv for kv in sorted(data["type_uint"].items())))
+    L.append("")
+    L.append("/-- `mpt_value_argv`: type code -> (type stored, type fetched with va_arg, size reported) -/")
+    L.append("def argvTable : List (Nat × CTy × CTy × Nat) := [%s]" % ", ".join("(%d, .%s, .%s, %d)" % r for r in data["argv"]))
     L.append("")
     L.append("end Mpt.Generated")
     return "\n".join(L) + "\n"
